@@ -68,6 +68,9 @@ type c16CustomCtx struct {
 	idx  int
 	done chan struct{}
 	err  atomic.Value
+	// armed: the context cancels itself right after the first Err() call that answered nil — the adversary of
+	// every check-then-act on Err() (a context may be cancelled at any instant, in particular just after it was asked)
+	armed atomic.Bool
 }
 
 func (c *c16CustomCtx) Deadline() (time.Time, bool) { return time.Time{}, false }
@@ -75,6 +78,9 @@ func (c *c16CustomCtx) Done() <-chan struct{}       { return c.done }
 func (c *c16CustomCtx) Err() error {
 	if e := c.err.Load(); e != nil {
 		return e.(error)
+	}
+	if c.armed.CompareAndSwap(true, false) {
+		defer c.cancel()
 	}
 	return nil
 }
@@ -221,6 +227,9 @@ func (m *c16Machine) cancelled(i int) bool {
 		if x.own || (x.kind == "dl" && x.slot <= m.slot) {
 			return true
 		}
+		if c, ok := x.ctx.(*c16CustomCtx); ok && c.err.Load() != nil {
+			return true // a self-cancelling custom context has fired (harness-owned fact)
+		}
 		i = x.parent
 	}
 	return false
@@ -286,7 +295,7 @@ func (m *c16Machine) withVals(ctx context.Context, idx int) context.Context {
 }
 
 func (m *c16Machine) newInput(t *rapid.T, idx int) *c16Input {
-	kinds := []string{"std", "std", "std", "std", "dl", "dl", "custom", "custom", "custom", "never"}
+	kinds := []string{"std", "std", "std", "std", "dl", "dl", "custom", "custom", "custom", "customarm", "customarm", "never"}
 	if idx > 0 {
 		kinds = append(kinds, "child", "child", "child")
 	}
@@ -307,8 +316,13 @@ func (m *c16Machine) newInput(t *rapid.T, idx int) *c16Input {
 		}
 		ctx, cancel := context.WithDeadline(context.Background(), d)
 		x.ctx, x.cancel = m.withVals(ctx, idx), cancel
-	case "custom":
+	case "custom", "customarm":
 		c := &c16CustomCtx{idx: idx, done: make(chan struct{})}
+		if x.kind == "customarm" {
+			c.armed.Store(!pre)
+			x.kind = "custom"
+			m.class("kind:custom-self-cancelling")
+		}
 		x.ctx, x.cancel = c, c.cancel
 	case "child":
 		x.parent = rapid.IntRange(0, idx-1).Draw(t, "parent")
@@ -427,6 +441,19 @@ func (m *c16Machine) drawTargets(t *rapid.T) {
 // in its own goroutine that first executes hold() (barrier / sleep until the step's instant). The returned
 // function validates the on-return obligations and must be called once the calls have finished; the
 // expectations are computed from the model as it is NOW (i.e. before a racing step is applied).
+// armedAmong reports whether one of the inputs is a custom context that may cancel itself during the call.
+func (m *c16Machine) armedAmong(idx ...int) bool {
+	for _, i := range idx {
+		for i >= 0 {
+			if c, ok := m.in[i].ctx.(*c16CustomCtx); ok && c.armed.Load() {
+				return true
+			}
+			i = m.in[i].parent
+		}
+	}
+	return false
+}
+
 func (m *c16Machine) build(hold func()) (ops []*vkit.Op, validate func()) {
 	m.built = true
 	racing := hold != nil
@@ -439,9 +466,23 @@ func (m *c16Machine) build(hold func()) (ops []*vkit.Op, validate func()) {
 		ops = append(ops, op)
 		return func() any { return op.Panic }
 	}
+	// expectations for the moment of return are taken from the model BEFORE anything is constructed (a quiescent
+	// point): a self-cancelling input may fire in the middle of the construction sequence, and its children only
+	// follow asynchronously
+	type pre struct{ want, selfCancel bool }
+	var preComb, preConf, preChain []pre
+	for _, c := range m.combs {
+		preComb = append(preComb, pre{m.combWant(c), m.armedAmong(append([]int{c.primary}, c.others...)...)})
+	}
+	for _, c := range m.confs {
+		preConf = append(preConf, pre{m.confInputsDone(c), m.armedAmong(c.args...)})
+	}
+	for _, c := range m.chains {
+		preChain = append(preChain, pre{m.chainWant(c), m.armedAmong(c.a, c.b)})
+	}
 	var checks []func()
 	for i, c := range m.combs {
-		want := m.combWant(c)
+		want, selfCancel := preComb[i].want, preComb[i].selfCancel
 		others := make([]context.Context, len(c.others))
 		for j, o := range c.others {
 			others[j] = m.ctxOf(o)
@@ -463,13 +504,13 @@ func (m *c16Machine) build(hold func()) (ops []*vkit.Op, validate func()) {
 			if want && c.errOnRet == nil {
 				m.fail("C16/combine-live-on-return", "CombineContext #%d: an input was already cancelled at the call but the result had Err()==nil on return", i)
 			}
-			if !racing && !want && c.errOnRet != nil {
+			if !racing && !want && !selfCancel && c.errOnRet != nil {
 				m.fail("C16/combine-cancelled-early", "CombineContext #%d: no input is cancelled but the result had Err()=%v on return", i, c.errOnRet)
 			}
 		})
 	}
 	for i, c := range m.confs {
-		want := m.confInputsDone(c)
+		want, selfCancel := preConf[i].want, preConf[i].selfCancel
 		args := make([]context.Context, len(c.args))
 		for j, a := range c.args {
 			args[j] = m.ctxOf(a)
@@ -493,13 +534,13 @@ func (m *c16Machine) build(hold func()) (ops []*vkit.Op, validate func()) {
 			if want && c.errOnRet != context.Canceled {
 				m.fail("C16/conflated-err-kind", "ConflatedContext #%d: every input was already cancelled; Err() on return is %v, documented context.Canceled", i, c.errOnRet)
 			}
-			if !racing && !want && c.errOnRet != nil {
+			if !racing && !want && !selfCancel && c.errOnRet != nil {
 				m.fail("C16/conflated-cancelled-early", "ConflatedContext #%d: an input is still live but the result had Err()=%v on return", i, c.errOnRet)
 			}
 		})
 	}
 	for i, c := range m.chains {
-		want := m.chainWant(c)
+		want, selfCancel := preChain[i].want, preChain[i].selfCancel
 		a, b := m.ctxOf(c.a), m.ctxOf(c.b)
 		pv := run("ChainAfterFunc", func() {
 			bigbuff.ChainAfterFunc(a, b, func() { c.calls.Add(1) })
@@ -512,7 +553,7 @@ func (m *c16Machine) build(hold func()) (ops []*vkit.Op, validate func()) {
 			if p := pv(); p != nil {
 				m.fail("C16/chain-panic", "ChainAfterFunc #%d panicked: %v", i, p)
 			}
-			if !racing && !want && onRet != 0 {
+			if !racing && !want && !selfCancel && onRet != 0 {
 				m.fail("C16/chain-called-early", "ChainAfterFunc #%d: f had run %d time(s) on return although neither context is cancelled", i, onRet)
 			}
 		})
